@@ -3,6 +3,8 @@ from __future__ import annotations
 
 import random as _random
 
+from common import ImplementationHang
+
 REQUIRED = [
     "Swh.C17.inv_step",
     "Swh.C17.inv_query",
@@ -178,9 +180,10 @@ def check_cases(ctx, cases):
         discovery.BaseDiscoveryGraph.do_query = dq
         err = None
         try:
-            rc, rs, rd = discovery.filter_known_objects(Archive(), lambda o, k: log.append((nid(oid(o)), bool(k))))
-        except RuntimeError as e:
-            err = str(e)
+            with ctx.time_limit(30):
+                rc, rs, rd = discovery.filter_known_objects(Archive(), lambda o, k: log.append((nid(oid(o)), bool(k))))
+        except (RuntimeError, ImplementationHang) as e:
+            err = "discovery does not terminate: " + str(e)
         finally:
             discovery.BaseDiscoveryGraph.do_query = orig
             if saved[0] is None:
